@@ -222,6 +222,10 @@ def _set_has_default(M, t):
     return t["k"] == "SET" and any(c["o"] == "D" for c in M.comps(t))
 
 
+def _has_default_in_additions(M, t):
+    return t["k"] in ("SEQUENCE", "SET") and any(c["o"] == "D" for c in t["adds"])
+
+
 def _set_default_explicit(t, v):
     """a SET value that stores a component equal to its DEFAULT explicitly"""
     if t["k"] != "SET":
@@ -259,6 +263,7 @@ PREDS = {
     "has_retagged_string": any_type(_has_retagged_string),
     "has_explicit_tag": any_type(_has_explicit_tag),
     "has_boolean_default_true": any_type(_has_boolean_default_true),
+    "has_default_in_additions": any_type(_has_default_in_additions),
     "bits_partial_octet": any_leaf(_bits_partial_octet),
     "setof_needs_sorting": any_leaf(_setof_needs_sorting),
     "set_default_explicit_any": any_type(_set_has_default),
